@@ -52,8 +52,11 @@ TABLE = {
                             '(signature, defaults, globals, closure identity and call bindings over all signature shapes)'),
     'C10': dict(level='other', bounded=[('c10_cache.py', 'random request histories x option sets x 1..32 threads against fresh conversions')],
                 explanation='proved: the cache data structure (_TransformedFnCache.has/__getitem__, CodeObjectCache/UnboundInstanceCache '
-                            '_get_key) and the options value type used as sub-key (C20); assumed with a bounded stand-in: the monitor '
-                            'invariant of PyToPy.transform_function and end-to-end coherence'),
+                            '_get_key), the options value type used as sub-key (C20), and (event mode) the double-checked-locking protocol of '
+                            'PyToPy.transform_function: lock-free lookup, second lookup under the lock, transform + create strictly before '
+                            'publishing under (function, options), instantiation with the requesting function\'s own globals, closure and '
+                            'defaults; assumed: the lock is a mutual-exclusion lock (sequential trace equivalence does not model '
+                            'interleavings); bounded stand-in: random request histories on 1..32 threads against fresh conversions'),
     'C11': dict(level='other', bounded=[('c11_names.py', 'adversarial renaming to the converter vocabulary, differential run + new_symbol log'),
                                         ('rt_namer.py', 'run-time evaluation of the new_symbol contract')],
                 explanation='proved: Namer.new_symbol never returns a name of the namespace, a reserved name (QNs flattened) or an earlier '
@@ -87,7 +90,10 @@ TABLE = {
                             'evaluation order and handed over exactly once); assumed with a bounded stand-in: the traversal itself '
                             '(evaluation order of hoisted operands, configuration matching)'),
     'C19': dict(level='other', bounded=[('c19_types.py', 'truthful resolver, run-time type log vs TYPES / CLOSURE_TYPES')],
-                explanation='proved: the shared worklist fixed point; bounded stand-in for the inference itself'),
+                explanation='proved: the shared worklist fixed point; closure types accumulate (_update_closure_types never forgets a '
+                            'recorded type and afterwards covers every type of every variable of the current map, so what is recorded for '
+                            'a local function covers the captured variables at each call site); assumed (T): annotation keys store and '
+                            'return the annotation object; bounded stand-in for the per-statement inference and the joins themselves'),
     'C17': dict(level='other', bounded=[('c17_tree.py', 'tree-ness, ctx, compile, reparse identity, to_code text vs loaded module')],
                 explanation='proved (event mode): to_code returns the dedented source of the very function object that to_graph loads for '
                             'the same arguments, and transform_ast is the documented pipeline; assumed with a bounded stand-in: tree-ness, '
